@@ -6,6 +6,7 @@ mod event;
 mod mutex;
 mod semaphore;
 mod mpmc;
+mod oneshot;
 
 use crate::core::*;
 use std::io::{BufRead, Write};
@@ -31,6 +32,9 @@ fn make(prim: &str, flavour: &str, cfg: &[u64]) -> Option<Box<dyn Exec>> {
         ("mpmc", "growing") => Box::new(mpmc::ChanExec::<Sync, mpmc::Growing>::new(cfg)),
         ("mpmc", "shared") => Box::new(mpmc::SharedChanExec::<Sync, mpmc::Fixed>::new(cfg)),
         ("mpmc", "shared-growing") => Box::new(mpmc::SharedChanExec::<Sync, mpmc::Growing>::new(cfg)),
+        ("oneshot", "local") => oneshot::make::<Local>(cfg, false),
+        ("oneshot", "sync") => oneshot::make::<Sync>(cfg, false),
+        ("oneshot", "shared") => oneshot::make::<Sync>(cfg, true),
         _ => return None,
     })
 }
